@@ -168,7 +168,6 @@ fn run_case(ctx: &mut Ctx, id: u64, mode: Mode) {
                 }
             }
         }
-        ctx.sample(|| json!({"kind":"exhaustive-chunk","prefix":prefix.iter().map(|x| gen::SYMBOL_NAMES[*x as usize]).collect::<Vec<_>>(),"length":l}));
         return;
     }
     let d = directed();
